@@ -78,9 +78,13 @@ def run(m):
     s = s.replace(old, new, 1)
     open(p, 'w').write(s)
     t = subprocess.run('cd /repo && PYTHONPATH=%s /venv/bin/python -m pytest -q -p no:cacheprovider -x tests/test_dictutils.py 2>&1 | tail -1' % d, shell=True, capture_output=True, text=True).stdout.strip()
-    env = dict(os.environ, VERIF_REPO=d, VERIF_JOBS='3', VERIF_SEED='1', C01_NO_SHRINK='1')
+    # private Coq tree / build / evidence / replays (AGENT_GUIDE "Running"): regenerated Gen files stay private
+    subprocess.run(['cp', '-a', '/verif/coq', d + '/coq'], check=True)
+    env = dict(os.environ, VERIF_REPO=d, VERIF_JOBS='3', VERIF_SEED='1', C01_NO_SHRINK='1', VERIF_COQ=d + '/coq',
+               VERIF_BUILD=d + '/build', VERIF_EVIDENCE_DIR=d + '/ev', VERIF_REPLAY_DIR=d + '/rp')
     r = subprocess.run(['/venv/bin/python', '/verif/harness/vcheck.py', 'C01', '--n', '400'], env=env, capture_output=True, text=True, cwd='/verif')
     lines = [l for l in r.stdout.splitlines() if l.startswith(('C01 tier', 'VIOLATION', 'HARNESS'))]
+    lines = [l.replace(d, '<scratch>') for l in lines]
     shutil.rmtree(d, ignore_errors=True)
     return name, 'exit=%d' % r.returncode, 'suite: %s | %s' % (t[-60:], ' ; '.join(lines)[:300])
 ms = [m for m in M if not only or m[0] in only or any(m[0].startswith(o) for o in only)]
